@@ -122,8 +122,23 @@ def bounds(rng, tier):
 def W(t):
     return wwords(t)
 
+def endpoint_reqs(rng):
+    """ranges with an endpoint at 0 (the special-cased branches of the BigInt samplers), half-open and inclusive, with the
+    candidate forced to the lowest and to the highest value of the range: both endpoints of an inclusive range must be
+    reachable, the upper end of a half-open one must not (C18-h1: `gen_range(low..=0)` never returns 0)"""
+    out = []
+    for lo in (-1, -2, -5, -(1 << 32), -(1 << 64), -(1 << 64) - 3, -((1 << 130) + 7)):
+        for incl in (0, 1):
+            width = -lo + incl                      # number of values in [lo, 0) / [lo, 0]
+            n = width.bit_length()
+            for cand in (0, width - 1, max(0, width - 2)):
+                t = encode(n, cand, rng.getrandbits(32)) + splitmix(rng, 2)
+                out.append("C18 gen_range_i %s %s %d %s" % (wi(lo), wi(0 - incl) if False else wi(0) if incl else wi(0), incl, W(t)))
+                out.append("C18 gen_range_i %s %s %d %s" % (wi(0), wi(-lo - 1 + (0 if incl else 1)) if incl else wi(-lo), incl, W(t)))
+    return out
+
 def gen(rng, tier):
-    reqs = []
+    reqs = endpoint_reqs(rng)
     rounds = 6 if tier == "thorough" else 1
     # ---- large bit sizes around power-of-two WORD counts (2^8 … 2^14 words; 2^15 in the thorough tier): a fill done in
     # pieces (a chunked `fill`, a staged buffer) treats the last piece specially, and the top-word shift must happen
